@@ -347,7 +347,7 @@ class Tr:
                 else:
                     t = self.join_num(tl, tr)
                     if t == NRAT:
-                        f = {ast.Lt: "nLt", ast.LtE: "nLe", ast.Gt: "nGt", ast.GtE: "nGe"}.get(type(op))
+                        f = {ast.Lt: "nLt", ast.LtE: "nLe", ast.Gt: "nGt", ast.GtE: "nGe", ast.Eq: "nEq"}.get(type(op))
                         if f is None:
                             raise TranslationError(f"comparison {src} on possibly-NaN values")
                         parts.append(f"({f} {self.coerce(left, tl, NRAT)} {self.coerce(right, tr, NRAT)})")
@@ -1225,6 +1225,19 @@ SPECS = [
          outputs=["self.y_idxs", "self.x_idxs", "self.idxs"],
          output_types={"self.y_idxs": INT, "self.x_idxs": INT, "self.idxs": INT},
          select=_from_stmt("adef = self.target_area"), owners=["C07", "C18"]),
+    dict(name="bucket_invalid_mask", file="pyresample/bucket/__init__.py", func="_get_invalid_mask",
+         params=[("data", NRAT), ("fill_value", NRAT)], returns=BOOL, select=_whole, owners=["C07"]),
+    dict(name="bucket_sum_weight", file="pyresample/bucket/__init__.py", func="BucketResampler.get_sum", mode="fragment",
+         params=[("data", NRAT), ("fill_value", NRAT)], outputs=["weights"], output_types={"weights": NRAT},
+         select=lambda fn: [st for st in fn.body if isinstance(st, ast.Assign) and ast.unparse(st.targets[0]) in ("invalid_mask", "weights")],
+         guard=lambda fn: [ast.unparse(st.targets[0]) for st in fn.body if isinstance(st, ast.Assign)
+                           and ast.unparse(st.targets[0]) in ("invalid_mask", "weights")] == ["invalid_mask", "weights"],
+         post_guard=["data = data.ravel()",
+                     "if np.issubdtype(weights.dtype, np.integer) and weights.dtype.itemsize < 8:\n"
+                     "    wide = np.uint64 if np.issubdtype(weights.dtype, np.unsignedinteger) else np.int64\n"
+                     "    weights = weights.astype(wide)",
+                     "(sums, _) = da.histogram(self.idxs, bins=out_size, range=(0, out_size), weights=weights, density=False)"],
+         inline={"_get_invalid_mask": dict(lean="bucket_invalid_mask", args=[NRAT, NRAT], returns=BOOL)}, owners=["C07"]),
     # ---- C10 -----------------------------------------------------------------------------------
     dict(name="area_getitem", file="pyresample/geometry.py", func="AreaDefinition.__getitem__", mode="fragment",
          params=[("yindices", tup(INT, INT, INT)), ("xindices", tup(INT, INT, INT)), ("self.height", INT), ("self.width", INT),
